@@ -10,7 +10,7 @@ Driver for C19 (response sink).  Case lines (after the index):
     the file is canonical: what was there after `open` verbatim, then the appended lines — in order when
     there is one worker, sorted when there are several (the real threads interleave as they like).
   A <existing> <format> <rate> <persist 0|1> <workers> <inputErrors: n resp…>     (CompassApp::run end to end)
-      → `ok <hex canonical file> <number of responses handed back>`
+      → `ok <hex canonical file> <n> <the n responses handed back, encoded, sorted>` | `apperr`
   P <hex text>                   (reader: `SinkRead.parse` vs `serde_json::from_str`)
       → `ok <enc value, number bits 0>` | `fail`
   X <k formats…> <response>      (a Combined sink of k file sinks, one response)
@@ -231,8 +231,12 @@ def caseP : P String := do
     | .refused => pure "refused"
     | .badFlushRate c => pure s!"badrate {hexOfText c}"
     | .ok sink =>
-      let (sink', returned) := appRun floatOps persist sink workers inputErrors (sequentialSchedule workers)
-      pure s!"ok {hexOfText (canonFile sink' (workers.length > 1))} {returned.length}"
+      match appRun floatOps persist sink workers inputErrors (sequentialSchedule workers) with
+      | none => pure "apperr"
+      | some (sink', returned) =>
+        -- what is handed back, as a multiset (the real chunking of the batch is the load balancer's)
+        let encs := (returned.map fun j => JsonProto.enc (canon j)).toArray.qsort (fun a b => a < b) |>.toList
+        pure (joinSp (["ok", hexOfText (canonFile sink' (workers.length > 1)), toString returned.length] ++ encs))
   | "P" => do
     -- the reader of Model/SinkRead.lean against serde_json::from_str on one line of text
     let line ← JsonProto.str
